@@ -20,6 +20,13 @@ pub struct Case {
     pub slopes: ((f64, f64), (f64, f64)),
     pub sampled: bool,
     pub tol: f64,
+    /// ordinates and end slopes are multiplied by 10^yscale_exp
+    #[serde(default)]
+    pub yscale_exp: f64,
+    /// sampled class: coefficient k of the sampled cubic/line is multiplied by 10^coef_exp[k] (gently curved data:
+    /// the generator keeps the exponents non-increasing in k, so that the ordinates stay of one magnitude)
+    #[serde(default)]
+    pub coef_exp: [f64; 4],
     /// 0 valid; 1 fewer than two points; 2 mismatched lengths; 3 a decreasing knot pair; 4 evaluate outside
     pub invalid: u8,
 }
@@ -110,11 +117,19 @@ fn kscale(local: &[f64; 4], x: f64, xi: f64) -> f64 {
     local[0] + local[1] * r + local[2] * r * r + local[3] * r * r * r
 }
 
-const KV: f64 = 512.0;
+const KV: f64 = 64.0;
 
 pub fn run_case(case: &Case) -> Outcome {
     let mut o = Obs::new();
-    let z = |p: &(f64, f64)| if case.complex { c(p.0, p.1) } else { c(p.0, 0.0) };
+    let ysc = 10f64.powf(case.yscale_exp);
+    let z = |p: &(f64, f64)| if case.complex { c(p.0 * ysc, p.1 * ysc) } else { c(p.0 * ysc, 0.0) };
+    let sampled_cf = |n: usize| -> Vec<C64> { case.ys.iter().take(n).enumerate().map(|(k, p)| z(p) * 10f64.powf(case.coef_exp[k])).collect() };
+    if case.yscale_exp != 0.0 {
+        o.label("y-scaled");
+    }
+    if case.tol > 1e-9 {
+        o.label("loose-polynomial-tolerance");
+    }
     let nk = case.hs.len() + 1;
     let mut xs = vec![case.x0];
     for h in &case.hs {
@@ -125,7 +140,7 @@ pub fn run_case(case: &Case) -> Outcome {
     o.label(if case.complex { "complex" } else { "real" });
     // data
     let ys: Vec<C64> = if case.sampled {
-        let cf: Vec<C64> = case.ys.iter().take(if case.clamped { 4 } else { 2 }).map(z).collect();
+        let cf = sampled_cf(if case.clamped { 4 } else { 2 });
         xs.iter().map(|&x| horner_c(&cf, c(x, 0.0))).collect()
     } else {
         case.ys.iter().take(nk).map(z).collect()
@@ -134,7 +149,7 @@ pub fn run_case(case: &Case) -> Outcome {
         return o.discard("not enough ordinates");
     }
     let (s0, s1) = if case.sampled && case.clamped {
-        let cf: Vec<C64> = case.ys.iter().take(4).map(z).collect();
+        let cf = sampled_cf(4);
         let d = deriv_coeffs_c(&cf, 1);
         (horner_c(&d, c(xs[0], 0.0)), horner_c(&d, c(xs[nk - 1], 0.0)))
     } else {
@@ -191,6 +206,30 @@ pub fn run_case(case: &Case) -> Outcome {
     if case.sampled {
         o.label("sampled");
     }
+    // Rounding of the second derivatives themselves: both solves see the data only through the divided
+    // differences, whose rounding is ~ eps |y| / h^2 at each knot, and the inverse of the diagonally dominant
+    // tridiagonal matrix spreads it with a decay of at least 1/2 per knot. g[i] bounds that (per unit eps)
+    // for interval i; it enters the value scale as g h^2, which matters where the local cubic is small
+    // (near x = 0, at a zero ordinate) while its neighbours are not.
+    let knot_scale: Vec<f64> = (0..nk)
+        .map(|j| {
+            let hm = if j == 0 { case.hs[0] } else if j == nk - 1 { case.hs[nk - 2] } else { case.hs[j - 1].min(case.hs[j]) };
+            let yl = if j > 0 { ys[j - 1].norm() } else { 0.0 };
+            let yr = if j + 1 < nk { ys[j + 1].norm() } else { 0.0 };
+            let end = if case.clamped && j == 0 { s0.norm() / hm } else if case.clamped && j == nk - 1 { s1.norm() / hm } else { 0.0 };
+            (yl + 2.0 * ys[j].norm() + yr) / (hm * hm) + end + m[j].norm()
+        })
+        .collect();
+    let g: Vec<f64> = (0..nk - 1)
+        .map(|i| {
+            (0..nk)
+                .map(|j| {
+                    let dist = if j <= i { i - j } else { j - i - 1 };
+                    knot_scale[j] * 0.5f64.powi(dist.min(1000) as i32)
+                })
+                .fold(0.0, f64::max)
+        })
+        .collect();
     let mut worst_v: f64 = 0.0;
     let mut worst_d: f64 = 0.0;
     let mut worst_c: f64 = 0.0;
@@ -212,10 +251,11 @@ pub fn run_case(case: &Case) -> Outcome {
                 Err(e) => return o.fail(format!("evaluation inside the knot range at {x:e} failed: {e}")),
             };
             let (rv, rd, local) = ref_eval(&xs, &ys, &m, i, x);
-            let k = kscale(&local, x, xs[i]);
+            let k = kscale(&local, x, xs[i]) + g[i] * h * h;
             kmax = kmax.max(k);
-            let bv = KV * EPS * k + 4.0 * case.tol * (1.0 + x.abs()).powi(3);
-            let bd = KV * EPS * k / h.min(1.0) * 4.0 + 4.0 * case.tol * 3.0 * (1.0 + x.abs()).powi(2);
+            // no allowance for the polynomial tolerance argument: the property does not let it move the spline
+            let bv = KV * EPS * k;
+            let bd = KV * EPS * k / h.min(1.0) * 4.0;
             if !(v.re.is_finite() && v.im.is_finite() && d.re.is_finite() && d.im.is_finite()) {
                 return o.fail("non-finite spline value");
             }
@@ -233,7 +273,7 @@ pub fn run_case(case: &Case) -> Outcome {
         }
         // direct: interpolation at both knots of the interval
         for (e, yk) in [(ends[0].0, ys[i]), (ends[1].0, ys[i + 1])] {
-            let b = KV * EPS * kmax + 4.0 * case.tol * (1.0 + xs[i + 1].abs()).powi(3);
+            let b = KV * EPS * kmax;
             worst_c = worst_c.max((e - yk).norm() / b);
             if !((e - yk).norm() <= b) {
                 return o.fail(format!("spline does not pass through the data at interval {i}: {e:e} vs {yk:e}"));
@@ -244,7 +284,7 @@ pub fn run_case(case: &Case) -> Outcome {
         let s = (p1 - p0) / h;
         let sl = (s * 3.0 - d0 * 2.0 - d1) * (2.0 / h);
         let sr = (-s * 3.0 + d0 + d1 * 2.0) * (2.0 / h);
-        second.push((sl, sr, (KV * EPS * kmax * 4.0 / (h * h).min(1.0) + 64.0 * case.tol * (1.0 + xs[i + 1].abs()).powi(3)) / 1.0));
+        second.push((sl, sr, KV * EPS * kmax * 4.0 / (h * h).min(1.0)));
     }
     // C2 across interior knots, end conditions
     for i in 0..nk - 2 {
@@ -278,13 +318,13 @@ pub fn run_case(case: &Case) -> Outcome {
     // reproduction: a clamped spline reproduces a cubic, a free spline a straight line - implied by the
     // comparison with the reference (whose M_i are then those of the cubic/line); checked directly as well
     if case.sampled {
-        let cf: Vec<C64> = case.ys.iter().take(if case.clamped { 4 } else { 2 }).map(z).collect();
+        let cf = sampled_cf(if case.clamped { 4 } else { 2 });
         let dcf = deriv_coeffs_c(&cf, 1);
         for i in 0..nk - 1 {
             let x = xs[i] + 0.37 * (xs[i + 1] - xs[i]);
             let (v, d) = sp.eval(x).unwrap();
-            let k = abs_scale_c(&cf, x.abs() + xs[i].abs()) + 1.0;
-            let bv = 64.0 * KV * EPS * k * (nk as f64) + 4.0 * case.tol * (1.0 + x.abs()).powi(3);
+            let k = abs_scale_c(&cf, x.abs() + xs[i].abs());
+            let bv = 64.0 * KV * EPS * k * (nk as f64);
             if !((v - horner_c(&cf, c(x, 0.0))).norm() <= bv) {
                 return o.fail(format!("spline through samples of a {} does not reproduce it at {x:e}: {v:e} vs {:e}", if case.clamped { "cubic" } else { "line" }, horner_c(&cf, c(x, 0.0))));
             }
@@ -294,6 +334,10 @@ pub fn run_case(case: &Case) -> Outcome {
         }
     }
     o.pass()
+}
+
+fn cexp() -> BoxedStrategy<f64> {
+    prop_oneof![2 => Just(0.0), 1 => gen::fl(-8.0, 0.0)].boxed()
 }
 
 fn strategy(t: Tier) -> BoxedStrategy<Case> {
@@ -308,10 +352,11 @@ fn strategy(t: Tier) -> BoxedStrategy<Case> {
         proptest::collection::vec(val(), maxk),
         (val(), val()),
         prop_oneof![3 => Just(false), 1 => Just(true)],
-        gen::logu(-14.0, -10.0),
+        (prop_oneof![1 => gen::logu(-14.0, -10.0), 1 => gen::logu(-10.0, -4.0)], prop_oneof![1 => Just(0.0), 1 => gen::fl(-9.0, 3.0)], [cexp(), cexp(), cexp(), cexp()]),
         prop_oneof![10 => Just(0u8), 1 => 1u8..=4],
     )
-        .prop_map(|(complex, clamped, x0, mut hs, ys, slopes, sampled, tol, invalid)| {
+        .prop_map(|(complex, clamped, x0, mut hs, ys, slopes, sampled, (tol, yscale_exp, ce), invalid)| {
+            let coef_exp = [0.0, 0.0, ce[2], ce[2] + ce[3]];
             // keep the knots inside [-10, 10]
             let total: f64 = hs.iter().sum();
             if x0 + total > 10.0 {
@@ -320,7 +365,7 @@ fn strategy(t: Tier) -> BoxedStrategy<Case> {
                     *h *= f;
                 }
             }
-            Case { complex, clamped, x0, hs, ys, slopes, sampled, tol, invalid }
+            Case { complex, clamped, x0, hs, ys, slopes, sampled, tol, yscale_exp, coef_exp, invalid }
         })
         .boxed()
 }
@@ -329,15 +374,15 @@ pub fn run(opts: &Opts) -> i32 {
     let mut spec = Spec::new("C16", strategy, run_case);
     for clamped in [false, true] {
         for complex in [false, true] {
-            spec.enumerated.push(Case { complex, clamped, x0: 0.0, hs: vec![1.0, 1.0, 1.0], ys: vec![(1.0, 0.5), (std::f64::consts::E, 1.0), (7.38905609893065, -1.0), (20.085536923187668, 0.0)], slopes: ((1.0, 0.0), (20.085536923187668, 0.0)), sampled: false, tol: 1e-12, invalid: 0 });
+            spec.enumerated.push(Case { complex, clamped, x0: 0.0, hs: vec![1.0, 1.0, 1.0], ys: vec![(1.0, 0.5), (std::f64::consts::E, 1.0), (7.38905609893065, -1.0), (20.085536923187668, 0.0)], slopes: ((1.0, 0.0), (20.085536923187668, 0.0)), sampled: false, tol: 1e-12, yscale_exp: 0.0, coef_exp: [0.0; 4], invalid: 0 });
             for invalid in 1..=4u8 {
-                spec.enumerated.push(Case { complex, clamped, x0: -1.0, hs: vec![0.5, 1.5], ys: vec![(1.0, 0.5), (2.0, 1.0), (0.0, -1.0)], slopes: ((1.0, 0.0), (-1.0, 0.5)), sampled: false, tol: 1e-12, invalid });
+                spec.enumerated.push(Case { complex, clamped, x0: -1.0, hs: vec![0.5, 1.5], ys: vec![(1.0, 0.5), (2.0, 1.0), (0.0, -1.0)], slopes: ((1.0, 0.0), (-1.0, 0.5)), sampled: false, tol: 1e-12, yscale_exp: 0.0, coef_exp: [0.0; 4], invalid });
             }
         }
     }
     spec.cases = opts.tier.pick(150_000, 4_000_000);
-    spec.essential = vec![("free", 0.3), ("clamped", 0.3), ("complex", 0.3), ("sampled", 0.15), ("invalid", 0.05)];
-    spec.rule = "generated: 2-40 knots, spacings 10^[-1.7,0] (ratio <= 50) inside [-10,10], real and complex ordinates in [-3,3] (or samples of a random cubic for clamped / line for free), random end slopes, polynomial zero tolerance 10^[-14,-10]; invalid: < 2 points, mismatched lengths, a decreasing knot pair, evaluation outside the range. Oracle: independent spline from a dense LU solve of the second-derivative system; on every interval values and slopes at both end knots (from inside) and 8 interior points within 512 eps K(x) (+ tolerance term), interpolation, continuity of the recovered second derivative across knots, zero end curvature (free) / prescribed end slopes (clamped), cubic/line reproduction; Err outside the range and for the invalid class. Non-trivial = >= 4 knots with non-uniform spacing. Distinct = distinct case JSON.".into();
+    spec.essential = vec![("free", 0.3), ("clamped", 0.3), ("complex", 0.3), ("sampled", 0.15), ("invalid", 0.05), ("y-scaled", 0.3), ("loose-polynomial-tolerance", 0.3)];
+    spec.rule = "generated: 2-40 knots, spacings 10^[-1.7,0] (ratio <= 50) inside [-10,10], real and complex ordinates in [-3,3] times a common factor 1 or 10^[-9,3] (or samples of a random cubic for clamped / line for free whose coefficients carry individual factors 10^[-8,0]: gently curved data), random end slopes, polynomial zero-tolerance argument 10^[-14,-4] (the oracle gives it no allowance: it must not move the spline); invalid: < 2 points, mismatched lengths, a decreasing knot pair, evaluation outside the range. Oracle: independent spline from a dense LU solve of the second-derivative system; on every interval values and slopes at both end knots (from inside) and 8 interior points within 64 eps (K(x) + g h^2), K the magnitude of the terms of the piece expanded in powers of x, g the decayed rounding scale of the second derivatives,, interpolation, continuity of the recovered second derivative across knots, zero end curvature (free) / prescribed end slopes (clamped), cubic/line reproduction; Err outside the range and for the invalid class. Non-trivial = >= 4 knots with non-uniform spacing. Distinct = distinct case JSON.".into();
     spec.max_shrink_iters = 1500;
     run_spec(spec, opts)
 }
